@@ -65,7 +65,8 @@ def ion_params(case):
     if src["kind"] == "none":
         p["PhotonSourceDistribution"] = {"type": "None"}
     elif src["kind"] == "single":
-        p["PhotonSourceDistribution"] = {"type": "SingleStar", "luminosity": "1.e+48 s^-1",
+        p["PhotonSourceDistribution"] = {"type": "SingleStar",
+                                         "luminosity": "0. s^-1" if src.get("zero_luminosity") else "1.e+48 s^-1",
                                          "position": cmirun.fmt_vec(src["positions"][0], "m")}
     else:
         p["PhotonSourceDistribution"] = {"type": "AsciiFile", "filename": "sources.yml"}
@@ -128,6 +129,8 @@ def check_accounting(case, workdir):
         r.label("periodic")
     if case["source"].get("on_boundary"):
         r.label("source-on-subgrid-boundary")
+    if case["source"].get("zero_luminosity"):
+        r.label("discrete-source-without-luminosity")
     if run["cpu_exceeded"]:
         recs = cmirun.parse_kv_lines(os.path.join(workdir, "verif_accounting.txt"))
         r.schedule_dependent = case["threads"] > 1
@@ -162,6 +165,9 @@ def check_accounting(case, workdir):
         if launched != req:
             return r.fail("iteration %d: %d packets requested, %d launched (discrete %d + continuous %d)" % (
                 it, req, launched, I(e, "launched_discrete"), I(e, "launched_continuous")))
+        if case["source"].get("zero_luminosity") and I(e, "launched_discrete") != 0:
+            return r.fail("iteration %d: %d packets launched by a discrete source without luminosity" % (
+                it, I(e, "launched_discrete")))
         terminated = I(e, "absorbed") + I(e, "escaped") + I(e, "not_reemitted")
         if terminated != req:
             return r.fail("iteration %d: %d packets requested, %d terminated (absorbed %d + escaped %d + not re-emitted %d)" % (
@@ -241,6 +247,12 @@ def cases(draw):
         n = draw(st.integers(2, 5))
         source["positions"] = [position(on_b and j == 0) for j in range(n)]
         source["luminosities"] = [10 ** draw(st.floats(46., 49., allow_subnormal=False)) for _ in range(n)]
+    # a discrete distribution without luminosity is switched off by the
+    # simulation ("Disabling discrete sources"); legal next to a continuous source
+    if ckind != "none" and skind != "none" and draw(st.integers(0, 3)) == 0:
+        source["zero_luminosity"] = True
+        if skind == "table":
+            source["luminosities"] = [0.0 for _ in source["luminosities"]]
     cont = {"kind": ckind}
     if ckind == "DistantStar":
         cont["position"] = [anchor[0] - 3 * sides[0], anchor[1] + 0.3 * sides[1], anchor[2] + 5 * sides[2]]
@@ -278,7 +290,7 @@ def cases(draw):
 SUBS = [
     pbt.Sub("accounting_task_based", cases(), check_accounting, quick=256, thorough=6000,
             shrink_budget=10,
-            rule="cells {4,6,8,12}^3, subgrids dividing them (1..4 per axis), periodicity, 1-3 density blocks (tau ~ 0.6..60), single / 2-5 tabulated / no discrete sources (25% exactly on a subgrid boundary), none / isotropic / distant-star / planar continuous source, diffuse field none / fixed value / physical, 1..5000 packets (incl. < number of sources, buffer size +-1), 1-3 iterations, copy level 0-3, 1..16 threads, seeded jitter, comfortable or tight pools; non-trivial: >=2 threads, >=2 subgrids, packets not a multiple of the buffer size",
+            rule="cells {4,6,8,12}^3, subgrids dividing them (1..4 per axis), periodicity, 1-3 density blocks (tau ~ 0.6..60), single / 2-5 tabulated / no discrete sources (25% exactly on a subgrid boundary; next to a continuous source 25% without luminosity, which switches them off), none / isotropic / distant-star / planar continuous source, diffuse field none / fixed value / physical, 1..5000 packets (incl. < number of sources, buffer size +-1), 1-3 iterations, copy level 0-3, 1..16 threads, seeded jitter, comfortable or tight pools; non-trivial: >=2 threads, >=2 subgrids, packets not a multiple of the buffer size",
             floors={"multi-threaded": 0.5, "several-subgrids": 0.4}),
 ]
 
